@@ -15,6 +15,7 @@ use serde::Serialize;
 use serde::ser::SerializeMap;
 
 use crate::escaping::Escaper;
+use crate::escaping::keep_trailing_no_eol;
 use crate::rules::registry::RuleRegistry;
 
 lazy_static! {
@@ -61,6 +62,7 @@ pub trait Rule: RuleClone + Debug + Send {
         let rendered = escaper.escaped_printable(&expression);
         if kind == "equal" {
             if escaper.has_unprintable(&expression) {
+                let rendered = keep_trailing_no_eol(rendered);
                 format!("{rendered} (escaped{quantifier})")
             } else if quantifier.is_empty() && ends_in_modifier(&rendered) {
                 // the kind must be named, or the end of the line is taken for the modifier
